@@ -261,7 +261,7 @@ def start_real_part():
                             stdout=subprocess.PIPE, stderr=subprocess.PIPE, text=True)
 
 
-def collect_real_part(proc, timeout=240):
+def collect_real_part(proc, timeout=420):
     try:
         out, err = proc.communicate(timeout=timeout)
     except subprocess.TimeoutExpired:
@@ -425,6 +425,42 @@ def run(ctx):
             if not real.get(part, {}).get('ok'):
                 ctx.violation('real server process: ' + REAL_WHAT[part] + ' - observed ' + json.dumps(real.get(part))[:300],
                               {'kind': 'real', 'part': part, 'observed': real.get(part)})
+    # ---- server side of a session: ends when its connection ends (model srv_run vs real server processes) ---------
+    if real is not None:
+        e = real.get('e', {})
+        scs = e.get('scenarios')
+        if scs is None:
+            ctx.violation('real server process: the session-end scenarios did not run: ' + json.dumps(e)[:300],
+                          {'kind': 'real', 'part': 'e', 'observed': e}, found_input=False)
+        else:
+            EV = {'close': 'EvClose', 'conn_closed': 'EvEof', 'client_dies': 'EvEof', 'garbage': 'EvGarbage'}
+            terms = []
+            for sc in scs:
+                ctx.count(('real-e', sc['requests'], sc['ending']), nontrivial=True)
+                ctx.histogram('session_end_scenario', '%d requests then %s' % (sc['requests'], sc['ending']))
+                terms.append('(%s, %s, %d%%nat)' % (coq_list(['EvRequest'] * sc['requests'] + [EV[sc['ending']]]),
+                                                   'true' if sc.get('exited') else 'false', sc.get('replies', 0)))
+            bad_srv = ctx.run_cases(['Model.Client'], '', 'check_server_case', terms)
+            cov['server_model_cases'] = len(terms)
+            cov['server_model_disagreements'] = len(bad_srv)
+            for k, sc in enumerate(scs):
+                failed = sc.get('inconclusive') or not sc.get('exited') or sc.get('replies') != sc['requests'] or k in bad_srv
+                if not failed:
+                    continue
+                what = ('real server process: after %d request(s) the connection ended by %s and the server process %s '
+                        '(replies %s%s); the server of a session must end when its connection ends (server.py; model srv_run, '
+                        'theorem C16_server_ends_with_connection)' % (
+                            sc['requests'], {'close': 'close()', 'conn_closed': 'closing the client end without a close request',
+                                             'client_dies': 'the death of the client process',
+                                             'garbage': 'undecodable bytes'}[sc['ending']],
+                            'was still running after 20 s' if not sc.get('exited') else 'exited',
+                            sc.get('replies'), ', inconclusive: ' + str(sc.get('error')) if sc.get('inconclusive') else ''))
+                rep = {'kind': 'real', 'part': 'e', 'scenario': sc}
+                if sc['ending'] == 'garbage':
+                    # undecodable input is not among "close, client disconnect and launch failure" of the quantifier
+                    ctx.extension_failure(what, rep)
+                else:
+                    ctx.violation(what, rep, found_input=not sc.get('inconclusive'))
     if not proof_ok:
         ctx.violation('proof obligations of Props/C16.v not discharged: %s' % (ctx.notes,),
                       {'kind': 'proof', 'theorem': 'Props/C16.v', 'notes': ctx.notes, 'build_error': cov.get('build_error')},
@@ -451,6 +487,6 @@ def replay(ctx, obj):
     if kind == 'real':
         real, err = collect_real_part(start_real_part())
         print(json.dumps(real, indent=1) if real else err)
-        return 0 if real and all(real.get(p, {}).get('ok') for p in 'abcd') else 1
+        return 0 if real and all(real.get(p, {}).get('ok') for p in 'abcde') else 1
     print(obj.get('what'))
     return 1
